@@ -114,6 +114,8 @@ namespace sim
     EV_ITER_INC,
     EV_GEN_CALL,
     EV_SWAP,      // user-provided ADL swap of the element type
+    EV_COMPARE,   // operator== / operator< of the element type
+    EV_PRED,      // caller's predicate (erase_if)
     EV_NKINDS
   };
 
@@ -122,7 +124,7 @@ namespace sim
   {
     static const char *const names[] = { "alloc", "ctor_default", "ctor_value", "ctor_copy",
                                          "ctor_move", "assign_copy", "assign_move",
-                                         "iter_deref", "iter_inc", "gen_call", "swap" };
+                                         "iter_deref", "iter_inc", "gen_call", "swap", "compare", "pred" };
     return (0 <= k && k < EV_NKINDS) ? names[k] : "?";
   }
 
